@@ -124,6 +124,12 @@ static uint64_t run_matrix(const QMat& M, Ctx& c)
          x.clear();
          d = dsvq(b2);
          e = dsvq(b3);
+         // The index arrays of these vectors have room for n entries.  On the unchanged tree some solves write more than n indices (known_findings.json); as a heap
+         // overflow that damages the worker (and the sanitizer reports a faulty instruction only once per process).  So the arrays get slack filled with a sentinel
+         // and every write behind the n-th entry is detected by looking at the slack afterwards - same defect, deterministic verdict, no damage.
+         const int SLACK = 4 * n + 16, SENT = -123456789;
+         SSVectorRational* guarded[3] = {&x, &d, &e};
+         for(auto* g : guarded) { g->setMax(n + SLACK); for(int t = n; t < n + SLACK; ++t) g->idx[t] = SENT; }
          int nout = 1;
          std::vector<Q> o1(n), o2(n), o3(n);
          auto get = [&](const VectorRational & w, std::vector<Q>& o) { for(int i = 0; i < n; ++i) o[i] = from_spx(w[i]); };
@@ -140,6 +146,22 @@ static uint64_t run_matrix(const QMat& M, Ctx& c)
          case 8: lu.solveLeft(x, vy, vz, sb, d, e); get(x, o1); get(vy, o2); get(vz, o3); nout = 3; break;
          }
          c.count("solves");
+         {
+            static const char* GNAME[3] = {"result", "rhs2", "rhs3"};
+            bool overrun = false;
+            for(int gi = 0; gi < 3; ++gi)
+            {
+               int written = 0;
+               for(int t = n; t < n + SLACK; ++t) if(guarded[gi]->idx[t] != SENT) ++written;
+               if(written)
+               {
+                  c.violation(std::string("index-array-overrun:") + GNAME[gi] + "@variant=" + RVARIANT[v], qmat_str(M) + ";variant=" + std::to_string(v) + ";rhs=" + std::to_string(k),
+                              std::to_string(written) + " entries written behind the " + std::to_string(n) + " entries the index array of a dimension-" + std::to_string(n) + " vector has");
+                  overrun = true;
+               }
+            }
+            if(overrun) c.count("solves_with_index_array_overrun");
+         }
          {
             // sanitizer reports are attributed to the solve variant that triggered them
             std::string ar = take_asan_report();
